@@ -223,13 +223,19 @@ def gen_cases(tier, seed):
         if not site[2].startswith(('DeferQueue.', 'CountCallbackInvoker.', 'SlidingWindowSemaphore.')):
             continue
         for nth in ((0, 1, 2) if quick else (0, 1, 2, 3, 4, 5)):
-            for rep in range(1 if quick else 3):
+            for rep in range(2 if quick else 4):
                 dst = rng.choice(['nonseekable', 'fifo', 'seekable', 'path']) if not site[2].startswith(('DeferQueue', 'Sliding')) else rng.choice(['nonseekable', 'fifo'])
                 cfg = dict(multipart_threshold=8, multipart_chunksize=8, io_chunksize=rng.choice([2, 4]), max_request_concurrency=rng.choice([2, 3, 4]),
                            max_in_memory_download_chunks=rng.choice([2, 3, 4]), max_io_queue_size=rng.choice([1, 2, 1000]), num_download_attempts=2)
                 w = {'file': site[0], 'lineno': site[1], 'name': f'rmw:{site[0]}:{site[1]}:{site[2]}', 'nth': nth, 'action': 'pause', 'wait': 0.2, 'rmw': True}
-                cases.append({'seed': rng.randrange(1 << 30), 'config': cfg, 'transfers': [{'kind': 'download', 'dst': dst, 'size': rng.choice([24, 33, 41])}],
-                              'yield': {'p': 0.0, 'window': w}, 'plan': {'delay_p': rng.choice([0.0, 0.3])}, 'family': 'rmw-window'})
+                size = rng.choice([24, 33, 41])
+                if site[2].startswith('CountCallbackInvoker.') and rep % 2 == 0:
+                    # many parts: the first ones finish (and are counted off) while the submission thread is still counting parts in
+                    size = rng.choice([200, 333, 480])
+                    cfg['io_chunksize'] = 8
+                    cfg['max_request_concurrency'] = rng.choice([3, 4])
+                cases.append({'seed': rng.randrange(1 << 30), 'config': cfg, 'transfers': [{'kind': 'download', 'dst': dst, 'size': size}],
+                              'yield': {'p': 0.0, 'window': w}, 'plan': {'delay_p': rng.choice([0.0, 0.3]) if size < 100 else 0.0}, 'family': 'rmw-window'})
     # executor / subscriber flavours: everything inline in the submitting thread (NonThreadedExecutor, what use_threads=False
     # selects), no subscribers at all, and duck-typed subscribers offering only some callbacks
     for s in cases:
